@@ -168,6 +168,37 @@ class Program(object):
 
 
 CLOSERS = ("then", "else", "loop", "+loop", "again", "until", "while", "repeat", ";")
+STRUCTURE_IN_COMMENT = ("if", "then", "else", "do", "loop", "+loop", "begin", "until", "again", "while", "repeat", ":", ";")
+
+
+def comments_of(source):
+    """list of token lists, one per comment ('( ... )' nested, or '\\ ... end of line'); [] when the source cannot be tokenized"""
+    try:
+        toks = tokenize(source)
+    except (CompileError, Unspecified):
+        return []
+    out = []
+    p = 0
+    while p < len(toks):
+        w = toks[p]
+        p += 1
+        if w in (".\"", "s\""):
+            p += 1
+        elif w == "(":
+            nest, body = 1, []
+            while p < len(toks) and nest:
+                nest += (toks[p] == "(") - (toks[p] == ")")
+                if nest:
+                    body.append(toks[p])
+                p += 1
+            out.append(body)
+        elif w == "\\":
+            body = []
+            while p < len(toks) and toks[p] != "\n":
+                body.append(toks[p])
+                p += 1
+            out.append(body)
+    return out
 
 
 class _Compiler(object):
@@ -577,6 +608,7 @@ class Machine(object):
             op = node[0]
             if op == "lit":
                 self.push(wrap(node[1], self.bits))
+                self.max_abs = max(self.max_abs, abs(node[1]))
                 if not -(1 << 31) <= node[1] < (1 << 31):
                     self.unspec.add("literal-beyond-int32")       # bytecodes are 32-bit: not representable, docs silent
             elif op == "w":
@@ -853,6 +885,9 @@ class Machine(object):
             r = wrap(a << n, bits)
             if r != a << n:
                 self.ub.add("shift")
+            self.max_abs = max(self.max_abs, abs(a << n))
+            if n >= 32:
+                self.flags.add("shift-count-beyond-32")
             st[-1] = r
         elif w == "rshift":
             self.need(2)
@@ -862,6 +897,8 @@ class Machine(object):
                 self.unspec.add("shift-count-out-of-range")
                 self.ub.add("shift")
                 n &= bits - 1
+            if n >= 32:
+                self.flags.add("shift-count-beyond-32")
             if a < 0 and n > 0:
                 self.unspec.add("rshift-of-negative")               # standard Forth: logical; C++ >>: arithmetic; docs silent
             st[-1] = a >> n
